@@ -111,8 +111,12 @@ fn run_check() {
     }
 }
 
+pub(crate) fn set_tid(t: u8) {
+    TID.with(|c| c.set(t));
+}
+
 /// Installed as `verif::yield_point`: runs before every atomic operation of the library.
-fn hook() {
+pub(crate) fn hook() {
     let nested = TS.with(|t| {
         let mut t = t.borrow_mut();
         if t.in_hook {
@@ -142,13 +146,18 @@ struct OpRec {
     res: i64,
 }
 
-struct ExecOut {
-    violations: Vec<Violation>,
-    steps: u64,
-    trace_hash: u64,
-    switches: u64,
+pub(crate) struct ExecOut {
+    pub(crate) violations: Vec<Violation>,
+    pub(crate) steps: u64,
+    pub(crate) trace_hash: u64,
+    pub(crate) switches: u64,
     history: Vec<OpRec>,
-    panic: Option<String>,
+    pub(crate) panic: Option<String>,
+}
+
+/// `run_shuttle` for bodies that keep no operation history.
+pub(crate) fn run_shuttle_unit(seed: u64, pct_depth: u32, body: impl Fn() + Send + Sync + 'static) -> ExecOut {
+    run_shuttle(seed, pct_depth, move |_h| body())
 }
 
 fn run_shuttle(seed: u64, pct_depth: u32, body: impl Fn(Arc<Mutex<Vec<OpRec>>>) + Send + Sync + 'static) -> ExecOut {
